@@ -41,6 +41,7 @@ where
 {
     let mut o = Outcome::default();
     let mut g = Gen::new(pu(params, "gseed"));
+    let mut scale_mult = 1.0f64;
     let mut target = match ps(params, "family") {
         "halfline" => {
             let mut t = GTarget::new(GKind::HalfLineLog, g.usize(1, 2));
@@ -52,12 +53,29 @@ where
             t.c = g.f64_in(0.8, 2.5);
             t
         }
+        "scaled" => {
+            // an exact rescaling of a unit-scale Gaussian by a power of two s = 2^k, k in -20..20:
+            // the start-up heuristic has to follow the scale (eps0 ~ s)
+            let d = g.usize(1, 3);
+            let mut t = GTarget::gauss(&mut g, d, 4.0);
+            let k = g.range(0, 40) as i32 - 20;
+            let sc = 2f64.powi(k);
+            for a in t.a.iter_mut() {
+                *a /= sc * sc;
+            }
+            for m in t.mu.iter_mut() {
+                *m *= sc;
+            }
+            scale_mult = sc;
+            t
+        }
         _ => gen_smooth(&mut g, true),
     };
     target.eval_budget = 40_000;
     let d = target.d;
-    let smooth = ps(params, "family") == "smooth";
-    let scale0 = pf(params, "start_scale");
+    let smooth = ps(params, "family") == "smooth" || ps(params, "family") == "scaled";
+    let scale0 = pf(params, "start_scale") * scale_mult;
+    o.count("probe_target_scale_below_2^-12_or_above_2^10", (scale_mult < 2f64.powi(-12) || scale_mult > 1024.0) as u64);
     let init64: Vec<f64> = (0..d)
         .map(|_| match target.kind {
             GKind::HalfLineLog => g.f64_in(0.3, 3.0),
@@ -269,7 +287,7 @@ impl Scenario for DualAveraging {
                 json!([g.usize(1, 6), nd])
             })
             .collect();
-        json!({"float": *g.pick(&["f64", "f64", "f32"]), "family": *g.pick(&["smooth", "smooth", "smooth", "smooth", "halfline", "box"]), "gseed": g.u64(), "seed": g.u64(), "accept": fbits(g.f64_in(0.5, 0.99)), "start_scale": fbits(g.log_uniform(0.1, 3.0)), "calls": calls})
+        json!({"float": *g.pick(&["f64", "f64", "f32"]), "family": *g.pick(&["smooth", "smooth", "smooth", "scaled", "scaled", "halfline", "box"]), "gseed": g.u64(), "seed": g.u64(), "accept": fbits(g.f64_in(0.5, 0.99)), "start_scale": fbits(g.log_uniform(0.1, 3.0)), "calls": calls})
     }
     fn execute(&self, p: &Value, ws: bool) -> Outcome {
         if ps(p, "float") == "f32" {
